@@ -173,7 +173,7 @@ info('C10',
      'P: order_combine_term, real source, any number of factors: the nested loops sort the factors by site and '
      'overall_sign * opval(sorted) == opval(original) in an uninterpreted Z2-graded operator algebra, using only explicit instances '
      'of its defining exchange law (contracts/c_terms.py, shared with C12); '
-     'MultiCouplingTerms.multi_coupling_term_handle_JW, real source, any number of factors on any sites, any unit cell length: a JW string right of factor x, and a JW multiplied onto factor x from the right, iff the number of JW-needing factors among 0..x is odd; ValueError iff the total is odd; all sites move by one common shift (contracts/c_terms_jw.py). '
+     'MultiCouplingTerms.multi_coupling_term_handle_JW, real source, any number of factors on any sites, any unit cell length: a JW string right of factor x, and a JW multiplied onto factor x from the right, iff the number of JW-needing factors among 0..x is odd; ValueError iff the total is odd; all sites move by one common shift; CouplingTerms.coupling_term_handle_JW (two factors): string and JW factor iff both need one, ValueError iff exactly one does (contracts/c_terms_jw.py). '
      'B (bounded, not proof): random coupling models (onsite, two-site of any range/sign, 3-site, exponentially decaying; complex '
      'strengths; plus_hc; explicit_plus_hc) on finite open/periodic chains for every site family: dense MPO, term list -> MPO, '
      'bond operators, MPO from bonds, ExactDiag, get_numpy_Hamiltonian (both sources), get_scipy_sparse_Hamiltonian, sorted MPO '
@@ -187,7 +187,7 @@ info('C10',
      [])
 info('C12',
      'P: fermionic sign algebra of order_combine_term (bubble sort by site with sign bookkeeping, any length; shared with C10); '
-     'MultiCouplingTerms.multi_coupling_term_handle_JW, real source, any number of factors on any sites, any unit cell length: a JW string right of factor x, and a JW multiplied onto factor x from the right, iff the number of JW-needing factors among 0..x is odd; ValueError iff the total is odd; all sites move by one common shift (contracts/c_terms_jw.py). '
+     'MultiCouplingTerms.multi_coupling_term_handle_JW, real source, any number of factors on any sites, any unit cell length: a JW string right of factor x, and a JW multiplied onto factor x from the right, iff the number of JW-needing factors among 0..x is odd; ValueError iff the total is odd; all sites move by one common shift; CouplingTerms.coupling_term_handle_JW (two factors): string and JW factor iff both need one, ValueError iff exactly one does (contracts/c_terms_jw.py). '
      'B (bounded; the site part is a complete enumeration of the stated finite domain): every predefined site class over S <= 3, '
      'Nmax <= 4, q <= 5, fillings and every conserve option: operators equal up to perm across options, spin / fermion / boson / clock '
      'algebra, declared h.c. pairs, operator charges consistent with the connected states, product names; grouped sites of 2-3 '
@@ -262,7 +262,8 @@ info('C18',
 info('C11',
      'P: BaseEnvironment.get_LP / get_RP, real source, finite and infinite, every L, store on/off: the environment is built from the nearest stored one by absorbing exactly the sites in between, in order (abstract leaf _contract_LP/_contract_RP with that obligation), translated by whole unit cells where needed; the cache keeps its representation invariant (a stored LP[j] covers exactly the sites < j), loses nothing, the other family is untouched, LP[i] is stored afterwards (store=True) or the cache is unchanged (store=False); ValueError iff no stored environment lies within one unit cell (contracts/c_env.py). ' 
      'MPO.overlap argument handling for infinite MPOs: raises nothing for max_range in {None, inf, n} and contracts '
-     'max(L + 2 r, L\' + 2 r\') sites with L substituted for an unknown range (contracts/c_mpo.py). '
+     'max(L + 2 r, L\' + 2 r\') sites with L substituted for an unknown range; MPO.is_equal: the window of sites compared (argument, own '
+     'max_range, or L) and the documented comparison of the three overlaps (contracts/c_mpo.py). '
      'B (bounded, not proof): finite MPOs from random term lists for every site family against dense operators: expectation value, '
      'variance, sum, dagger, is_hermitian, is_equal (false positives and negatives), overlap, distance, to_TermList/from_term_list, '
      'plus_identity, apply by every compression method within the reported error, error order of make_U_I/II for real- and '
@@ -274,7 +275,8 @@ info('C13',
      'P (mechanism only, does not decide energies): BaseEnvironment.get_LP / get_RP, real source, finite and infinite, every L, store on/off: the environment is built from the nearest stored one by absorbing exactly the sites in between, in order (abstract leaf _contract_LP/_contract_RP with that obligation), translated by whole unit cells where needed; the cache keeps its representation invariant (a stored LP[j] covers exactly the sites < j), loses nothing, the other family is untouched, LP[i] is stored afterwards (store=True) or the cache is unchanged (store=False); ValueError iff no stored environment lies within one unit cell (contracts/c_env.py). ' 
      'Sweep.get_sweep_schedule for every L, n in {1,2}, finite and infinite: equal '
      'lengths, each step moves by +-1 as announced incl. the wrap to the first entry, every position visited in both directions, the '
-     'environment read next is updated (contracts/c_sweeps.py). '
+     'environment read next is updated; IterativeSweeps.run: checkpoints exactly between iterations of one call; DMRGEngine.post_run_cleanup: '
+     'mixer_cleanup, mixer off, final canonicalisation, once each and in this order (contracts/c_sweeps.py). '
      'B (bounded, not proof): run() postconditions of two-site / single-site DMRG x mixers x diag_method x chi limits on chains of '
      '3-8 sites against exact diagonalisation in the charge sector of the initial state: normalised, canonical, same sector, reported '
      'E = <H> within truncation, E >= E_exact, untruncated two-site DMRG with mixer exact in energy and state; every relation of mixer_params.disable_after to the '
